@@ -315,7 +315,8 @@ func (c *cors) headerIsAllowed(r *http.Request) bool {
 		return true
 	}
 
-	h := strings.TrimSpace(r.Header.Get(header.AccessControlRequestHeaders))
+	// 报头可以分成多行发送，其内容等同于以逗号连接的一行。
+	h := strings.TrimSpace(strings.Join(r.Header.Values(header.AccessControlRequestHeaders), ","))
 	if h == "" {
 		return true
 	}
